@@ -134,6 +134,7 @@ class MasterWorld:
         self.monitors = cfg.get('monitors', [])
         self.cellmonitors = cfg.get('cellmonitors', [])
         self.down_since_L = {}
+        self.marked = set()
         self.put_log = []
         self.srv_variant = {n: 0 for n, s in cfg['servers'].items()
                             if s.get('initial', True)}
@@ -209,6 +210,7 @@ class MasterWorld:
         m.process_scheduled(self.children(z.SCHEDULED))
         m.process_events(self.children(z.EVENTS))
         m.process_blackedout_servers(self.children(z.BLACKEDOUT_SERVERS))
+        self._track_states()
         if cycle:
             self.cycle()
 
@@ -339,6 +341,8 @@ class MasterWorld:
                 placed = sorted(self.children(z.path.placement(name)),
                                 key=cellworld._seq)
                 apps = placed[mark:mark + 1]
+                if state == 'frozen':
+                    self.marked.update((name, a) for a in apps)
             masterapi.update_server_state(admin, name, state, apps)
             self.deliver(z.EVENTS)
         elif kind == 'bl':
